@@ -54,8 +54,22 @@ Section StarRing.
   Local Instance ops : @Ring_ops A zero one add mul sub opp (@eq A) := {}.
   Local Instance rr : Ring (Ro := ops).
   Proof.
-    destruct RA. constructor; try (intros; cbv; congruence); try typeclasses eauto.
-    all: try (repeat intro; cbv in *; subst; reflexivity).
+    constructor.
+    - exact eq_equivalence.
+    - intros x x' Hx y y' Hy. change (x = x') in Hx. change (y = y') in Hy. subst. reflexivity.
+    - intros x x' Hx y y' Hy. change (x = x') in Hx. change (y = y') in Hy. subst. reflexivity.
+    - intros x x' Hx y y' Hy. change (x = x') in Hx. change (y = y') in Hy. subst. reflexivity.
+    - intros x x' Hx. change (x = x') in Hx. subst. reflexivity.
+    - exact (add_0_l RA).
+    - exact (add_comm RA).
+    - exact (add_assoc RA).
+    - exact (mul_1_l RA).
+    - exact (mul_1_r RA).
+    - exact (mul_assoc RA).
+    - exact (distr_l RA).
+    - exact (distr_r RA).
+    - intros x y. reflexivity.
+    - exact (opp_def RA).
   Qed.
 
   Ltac ncr := unfold cay_den, smat, two, sub in *; non_commutative_ring.
@@ -248,17 +262,20 @@ Section StarRing.
       destruct (push_through p q Y H1 H2) as [P1 P2].
       set (K' := mul (mul r Kh) r).
       assert (Eqp : sub one (mul q p) = cay_den K').
-      { unfold q, p, K', cay_den. f_equal. f_equal. rewrite cen_l. reflexivity. }
+      { unfold q, p, K', cay_den. rewrite cen_l. reflexivity. }
       rewrite Eqp in P1, P2.
       set (X' := add one (mul (mul q Y) p)) in *.
       assert (HY : Y = add one (mul (mul p q) Y)).
-      { rewrite <- H1 at 2. ncr. }
+      { transitivity (add (mul (sub one (mul p q)) Y) (mul (mul p q) Y)); [ncr|].
+        rewrite H1. reflexivity. }
       assert (HT : mul (mul r (mul Kh Y)) r = mul K' X').
       { unfold K', X'.
         assert (E : mul (mul (mul r Kh) r) (add one (mul (mul q Y) p))
                     = mul (mul q (add one (mul (mul p q) Y))) r).
-        { unfold q, p. rewrite !(distr_r RA), !(distr_l RA). f_equal; [ncr|].
-          rewrite <- !(mul_assoc RA). rewrite !cen_l. rewrite <- !(mul_assoc RA). reflexivity. }
+        { assert (Ep : mul (mul q Y) p = mul ii (mul (mul q Y) r)) by (unfold p; apply cen_l).
+          assert (Epq2 : mul (mul p q) Y = mul ii (mul (mul r q) Y)) by (unfold p; ncr).
+          rewrite Ep, Epq2.
+          rewrite !(distr_r RA), !cen_l. unfold q. ncr. }
         rewrite E, <- HY. unfold q. ncr. }
       assert (HdK' : dag K' = K').
       { unfold K'. rewrite !(ai_mul _ DA), Hdr, HdK. ncr. }
@@ -271,13 +288,15 @@ Section StarRing.
         set (a' := sub one (mul p q)) in *.
         set (c := tr a').
         assert (Hc : c = sub one (mul ii (mul Kh (mul r r)))).
-        { unfold c, a', sub, p, q. rewrite (ai_add _ TA), (ai_opp _ TA), (ai_one _ TA), !(ai_mul _ TA), Htr, HtK, tr_ii.
-          f_equal. f_equal. rewrite <- (ii_central _ IA). ncr. }
+        { unfold c, a', sub, p, q.
+          rewrite (ai_add _ TA), (ai_opp _ TA), (ai_one _ TA), !(ai_mul _ TA), Htr, HtK, tr_ii.
+          rewrite <- (ii_central _ IA r), cen_l. ncr. }
         assert (HcK : mul c Kh = mul Kh a').
         { rewrite Hc. unfold a', p, q.
-          unfold sub. rewrite (distr_l RA), (distr_r RA), (mul_1_l RA), (mul_1_r RA). f_equal.
-          transitivity (opp (mul Kh (mul ii (mul (mul r r) Kh)))); [|ncr].
-          rewrite cen_l. ncr. }
+          assert (E : mul Kh (mul (mul ii r) (mul r Kh)) = mul ii (mul Kh (mul r (mul r Kh)))).
+          { rewrite <- (mul_assoc RA ii), cen_l. reflexivity. }
+          transitivity (sub Kh (mul Kh (mul (mul ii r) (mul r Kh)))); [|ncr].
+          rewrite E. ncr. }
         assert (HtY1 : mul (tr Y) c = one).
         { unfold c. rewrite <- (ai_mul _ TA), H1. apply (ai_one _ TA). }
         rewrite (ai_mul _ TA), HtK.
@@ -287,3 +306,158 @@ Section StarRing.
     Qed.
   End Both.
 End StarRing.
+
+(* ------------------------------------------------------------------------------------ *)
+(* Part 2: the rings of 1x1, 2x2, 3x3 complex matrices                                    *)
+(* ------------------------------------------------------------------------------------ *)
+Open Scope C_scope.
+
+Lemma Cconj_add (x y : C) : Cconj (x + y) = Cconj x + Cconj y.
+Proof. destruct x, y. unfold Cconj, Cplus; cbn [fst snd]. f_equal. ring. Qed.
+Lemma Cconj_mul (x y : C) : Cconj (x * y) = Cconj x * Cconj y.
+Proof. destruct x, y. unfold Cconj, Cmult; cbn [fst snd]. f_equal; ring. Qed.
+Lemma Cconj_invol (x : C) : Cconj (Cconj x) = x.
+Proof. destruct x. unfold Cconj; cbn [fst snd]. f_equal. ring. Qed.
+Lemma Cconj_1 : Cconj 1 = 1.
+Proof. unfold Cconj, RtoC; cbn [fst snd]. f_equal. ring. Qed.
+Lemma Cconj_0 : Cconj 0 = 0.
+Proof. unfold Cconj, RtoC; cbn [fst snd]. f_equal. ring. Qed.
+Lemma Cconj_Ci : Cconj Ci = - Ci.
+Proof. unfold Cconj, Ci, Copp; cbn [fst snd]. f_equal. ring. Qed.
+Lemma Cconj_opp (x : C) : Cconj (- x) = - Cconj x.
+Proof. destruct x. unfold Cconj, Copp; cbn [fst snd]. reflexivity. Qed.
+Lemma Cconj_real (x : C) : isreal x -> Cconj x = x.
+Proof. destruct x as [a b]. unfold isreal, Cconj; cbn [fst snd]. intros ->. f_equal. ring. Qed.
+
+Lemma Ci2o : Ci * Ci = Copp 1.
+Proof. unfold Ci, Cmult, Copp, RtoC; cbn [fst snd]. f_equal; ring. Qed.
+
+(* entry (i, j) of a matrix given as a list of rows *)
+Definition ent (l : list (list C)) (i j : nat) : C := nth j (nth i l []) 0.
+
+(* --- 1x1 --- *)
+Definition M1 := C.
+Definition m1_of (l : list (list C)) : M1 := ent l 0 0.
+
+Lemma M1_ring : ring_ax C 0 1 Cplus Cmult Copp.
+Proof. constructor; intros; ring. Qed.
+Lemma M1_imag : imag_ax C 1 Cmult Copp Ci.
+Proof. constructor; intros; [ring | apply Ci2o]. Qed.
+Lemma M1_dag : antiinv_ax C 1 Cplus Cmult Cconj.
+Proof.
+  constructor; intros.
+  - apply Cconj_add.
+  - rewrite Cconj_mul. ring.
+  - apply Cconj_invol.
+  - apply Cconj_1.
+Qed.
+Lemma M1_tr : antiinv_ax C 1 Cplus Cmult (fun x => x).
+Proof. constructor; intros; try reflexivity. ring. Qed.
+
+(* --- 2x2 --- *)
+Record M2 := mk2 { a00 : C; a01 : C; a10 : C; a11 : C }.
+Definition m2_of (l : list (list C)) : M2 := mk2 (ent l 0 0) (ent l 0 1) (ent l 1 0) (ent l 1 1).
+Definition M2zero := mk2 0 0 0 0.
+Definition M2one := mk2 1 0 0 1.
+Definition M2i := mk2 Ci 0 0 Ci.
+Definition M2add (x y : M2) :=
+  mk2 (a00 x + a00 y) (a01 x + a01 y) (a10 x + a10 y) (a11 x + a11 y).
+Definition M2opp (x : M2) := mk2 (- a00 x) (- a01 x) (- a10 x) (- a11 x).
+Definition M2mul (x y : M2) :=
+  mk2 (a00 x * a00 y + a01 x * a10 y) (a00 x * a01 y + a01 x * a11 y)
+      (a10 x * a00 y + a11 x * a10 y) (a10 x * a01 y + a11 x * a11 y).
+Definition M2tr (x : M2) := mk2 (a00 x) (a10 x) (a01 x) (a11 x).
+Definition M2dag (x : M2) := mk2 (Cconj (a00 x)) (Cconj (a10 x)) (Cconj (a01 x)) (Cconj (a11 x)).
+Definition M2diag (d0 d1 : C) := mk2 d0 0 0 d1.
+
+Ltac m2 :=
+  intros;
+  repeat match goal with x : M2 |- _ => destruct x end;
+  cbv [M2add M2mul M2opp M2tr M2dag M2one M2zero M2i a00 a01 a10 a11];
+  rewrite ?Cconj_add, ?Cconj_mul, ?Cconj_invol, ?Cconj_1, ?Cconj_0, ?Cconj_Ci;
+  f_equal; try ring.
+
+Lemma M2_ring : ring_ax M2 M2zero M2one M2add M2mul M2opp.
+Proof. constructor; m2. Qed.
+Lemma M2_imag : imag_ax M2 M2one M2mul M2opp M2i.
+Proof. constructor; m2; ring [Ci2o]. Qed.
+Lemma M2_dag : antiinv_ax M2 M2one M2add M2mul M2dag.
+Proof. constructor; m2. Qed.
+Lemma M2_tr : antiinv_ax M2 M2one M2add M2mul M2tr.
+Proof. constructor; m2. Qed.
+Lemma M2_dag_i : M2dag M2i = M2opp M2i.
+Proof. m2. Qed.
+Lemma M2_tr_i : M2tr M2i = M2i.
+Proof. reflexivity. Qed.
+
+(* --- 3x3 --- *)
+Record M3 := mk3 { b00 : C; b01 : C; b02 : C; b10 : C; b11 : C; b12 : C; b20 : C; b21 : C; b22 : C }.
+Definition m3_of (l : list (list C)) : M3 :=
+  mk3 (ent l 0 0) (ent l 0 1) (ent l 0 2) (ent l 1 0) (ent l 1 1) (ent l 1 2)
+      (ent l 2 0) (ent l 2 1) (ent l 2 2).
+Definition M3zero := mk3 0 0 0 0 0 0 0 0 0.
+Definition M3one := mk3 1 0 0 0 1 0 0 0 1.
+Definition M3i := mk3 Ci 0 0 0 Ci 0 0 0 Ci.
+Definition M3add (x y : M3) :=
+  mk3 (b00 x + b00 y) (b01 x + b01 y) (b02 x + b02 y)
+      (b10 x + b10 y) (b11 x + b11 y) (b12 x + b12 y)
+      (b20 x + b20 y) (b21 x + b21 y) (b22 x + b22 y).
+Definition M3opp (x : M3) :=
+  mk3 (- b00 x) (- b01 x) (- b02 x) (- b10 x) (- b11 x) (- b12 x) (- b20 x) (- b21 x) (- b22 x).
+Definition M3mul (x y : M3) :=
+  mk3 (b00 x * b00 y + b01 x * b10 y + b02 x * b20 y)
+      (b00 x * b01 y + b01 x * b11 y + b02 x * b21 y)
+      (b00 x * b02 y + b01 x * b12 y + b02 x * b22 y)
+      (b10 x * b00 y + b11 x * b10 y + b12 x * b20 y)
+      (b10 x * b01 y + b11 x * b11 y + b12 x * b21 y)
+      (b10 x * b02 y + b11 x * b12 y + b12 x * b22 y)
+      (b20 x * b00 y + b21 x * b10 y + b22 x * b20 y)
+      (b20 x * b01 y + b21 x * b11 y + b22 x * b21 y)
+      (b20 x * b02 y + b21 x * b12 y + b22 x * b22 y).
+Definition M3tr (x : M3) :=
+  mk3 (b00 x) (b10 x) (b20 x) (b01 x) (b11 x) (b21 x) (b02 x) (b12 x) (b22 x).
+Definition M3dag (x : M3) :=
+  mk3 (Cconj (b00 x)) (Cconj (b10 x)) (Cconj (b20 x)) (Cconj (b01 x)) (Cconj (b11 x))
+      (Cconj (b21 x)) (Cconj (b02 x)) (Cconj (b12 x)) (Cconj (b22 x)).
+Definition M3diag (d0 d1 d2 : C) := mk3 d0 0 0 0 d1 0 0 0 d2.
+
+Ltac m3 :=
+  intros;
+  repeat match goal with x : M3 |- _ => destruct x end;
+  cbv [M3add M3mul M3opp M3tr M3dag M3one M3zero M3i b00 b01 b02 b10 b11 b12 b20 b21 b22];
+  rewrite ?Cconj_add, ?Cconj_mul, ?Cconj_invol, ?Cconj_1, ?Cconj_0, ?Cconj_Ci;
+  f_equal; try ring.
+
+Lemma M3_ring : ring_ax M3 M3zero M3one M3add M3mul M3opp.
+Proof. constructor; m3. Qed.
+Lemma M3_imag : imag_ax M3 M3one M3mul M3opp M3i.
+Proof. constructor; m3; ring [Ci2o]. Qed.
+Lemma M3_dag : antiinv_ax M3 M3one M3add M3mul M3dag.
+Proof. constructor; m3. Qed.
+Lemma M3_tr : antiinv_ax M3 M3one M3add M3mul M3tr.
+Proof. constructor; m3. Qed.
+Lemma M3_dag_i : M3dag M3i = M3opp M3i.
+Proof. m3. Qed.
+Lemma M3_tr_i : M3tr M3i = M3i.
+Proof. reflexivity. Qed.
+
+(* ------------------------------------------------------------------------------------ *)
+(* Part 3: matrices of trees; SymPy's Sum over the pole index                            *)
+(* ------------------------------------------------------------------------------------ *)
+Definition denMC (ρ : envC) (m : list (list expr)) : list (list C) := map (map (denC ρ)) m.
+Fixpoint all_wdC (ρ : envC) (l : list expr) : Prop :=
+  match l with [] => True | e :: l' => wdC ρ e /\ all_wdC ρ l' end.
+Fixpoint wdMC (ρ : envC) (m : list (list expr)) : Prop :=
+  match m with [] => True | r :: m' => all_wdC ρ r /\ wdMC ρ m' end.
+
+(* the symbols K[i, j], P[i, 0], rho_i of ampform.dynamics.kmatrix (create_symbol_matrix names) *)
+Definition Ksym (ρ : envC) (i j : nat) : C :=
+  csym ρ ("K[" ++ String (Ascii.ascii_of_nat (48 + i)) "" ++ ", " ++ String (Ascii.ascii_of_nat (48 + j)) "" ++ "]").
+Definition Psym (ρ : envC) (i : nat) : C :=
+  csym ρ ("P[" ++ String (Ascii.ascii_of_nat (48 + i)) "" ++ ", 0]").
+Definition rhosym (ρ : envC) (i : nat) : C :=
+  csym ρ ("rho" ++ String (Ascii.ascii_of_nat (48 + i)) "").
+Definition K2 (ρ : envC) : M2 := mk2 (Ksym ρ 0 0) (Ksym ρ 0 1) (Ksym ρ 1 0) (Ksym ρ 1 1).
+Definition K3 (ρ : envC) : M3 :=
+  mk3 (Ksym ρ 0 0) (Ksym ρ 0 1) (Ksym ρ 0 2) (Ksym ρ 1 0) (Ksym ρ 1 1) (Ksym ρ 1 2)
+      (Ksym ρ 2 0) (Ksym ρ 2 1) (Ksym ρ 2 2).
